@@ -269,7 +269,7 @@ func TestVerifC04(t *testing.T) {
 	restore := m.install()
 	defer restore()
 
-	n := run.N(160, 80000)
+	n := run.N(1200, 80000)
 	run.Cases(n, func(c *vlib.Case) {
 		r := c.R
 		m.reset()
